@@ -16,6 +16,10 @@ pub enum Op {
     Add(Spec),
     /// add_assertion_envelope with something that is not an assertion (nor obscured): must be refused
     AddInvalid(Spec, u8),
+    /// an EncryptedMessage / Compressed built with bc-components (key holder), converted with
+    /// Envelope::try_from and added as the object of an assertion; variant 0 declares its digest properly,
+    /// the others carry no usable digest declaration and must be refused
+    Import(u8, u8),
     AddDup(usize),
     AddDupObscured(usize, Obs),
     Remove(usize),
@@ -50,6 +54,7 @@ impl Op {
         match self {
             Op::Add(_) => "add",
             Op::AddInvalid(..) => "add-non-assertion",
+            Op::Import(..) => "import-obscured",
             Op::AddDup(_) => "add-duplicate",
             Op::AddDupObscured(..) => "add-duplicate-obscured",
             Op::Remove(_) => "remove",
@@ -104,6 +109,7 @@ impl Op {
         match self {
             Op::Add(s) => format!("add({})", bridge::spec_model(s).show()),
             Op::AddInvalid(s, k) => format!("add-non-assertion(kind {}, {})", k, bridge::spec_model(s).show()),
+            Op::Import(k, v) => format!("import-{}(declaration variant {})", if *k == 0 { "encrypted-message" } else { "compressed" }, v),
             Op::Replace(i, s) => format!("replace(#{}, {})", i, bridge::spec_model(s).show()),
             Op::ReplaceSubject(s) => format!("replace_subject({})", bridge::spec_model(s).show()),
             Op::ElideSet { targets, reveal, action } => format!(
@@ -153,8 +159,13 @@ fn small_env(src: &mut Src) -> Spec {
 /// Draw the next operation given the current model state (so indices and targets are meaningful).
 pub fn gen_op(src: &mut Src, m: &M) -> Op {
     let n_as = m.assertions().len();
-    if src.chance(10) {
+    let first = src.byte();
+    if first >= 246 {
         return Op::AddInvalid(small_assertion(src), src.below(5) as u8);
+    }
+    if first >= 238 {
+        let kind = src.below(2) as u8;
+        return Op::Import(kind, if kind == 0 { src.below(7) as u8 } else { src.below(2) as u8 });
     }
     let w = [
         14, // add
@@ -406,6 +417,48 @@ pub fn apply(e: &Envelope, m: &M, op: &Op) -> Applied {
             let via = k / 5;
             let _ = via;
             Applied { result: e.add_assertion_envelope(bad).map_err(|r| r.to_string()), predicted: Predicted::Error }
+        }
+        Op::Import(kind, variant) => {
+            let content = M::text(&format!("imported content {}", variant));
+            let d = content.digest();
+            let key = bridge::case_key();
+            if *kind == 0 {
+                let tagged_digest = bridge::dig(&d).tagged_cbor().to_cbor_data();
+                let aad: Vec<u8> = match variant {
+                    0 => tagged_digest.clone(),
+                    1 => Vec::new(),
+                    2 => d.to_vec(),
+                    3 => {
+                        let mut v = vec![0x58, 0x20];
+                        v.extend(d);
+                        v
+                    }
+                    4 => {
+                        let mut v = tagged_digest.clone();
+                        let l = v.len();
+                        v[l - 33] = 0x1f;
+                        v.truncate(l - 1);
+                        v
+                    }
+                    5 => vec![0x01],
+                    _ => {
+                        let mut v = vec![0x6b];
+                        v.extend(b"application");
+                        v
+                    }
+                };
+                let msg = key.encrypt(content.tagged(), Some(aad), Some(bc_components::Nonce::from_data_ref([7u8; 12]).unwrap()));
+                let raw = msg.tagged_cbor().to_cbor_data();
+                let result = Envelope::try_from(msg).map_err(|r| r.to_string()).map(|x| e.add_assertion("imported", x));
+                let predicted = if *variant == 0 { Predicted::Exactly(m.add(M::assertion(M::text("imported"), M::Encrypted(d, raw)))) } else { Predicted::Error };
+                Applied { result, predicted }
+            } else {
+                let c = Compressed::from_uncompressed_data(content.tagged(), if *variant == 0 { Some(bridge::dig(&d)) } else { None });
+                let raw = c.tagged_cbor().to_cbor_data();
+                let result = Envelope::try_from(c).map_err(|r| r.to_string()).map(|x| e.add_assertion("imported", x));
+                let predicted = if *variant == 0 { Predicted::Exactly(m.add(M::assertion(M::text("imported"), M::Compressed(d, raw)))) } else { Predicted::Error };
+                Applied { result, predicted }
+            }
         }
         Op::AddDup(i) => {
             let a = e.assertions()[*i].clone();
